@@ -2,6 +2,7 @@ package sx
 
 import (
 	"fmt"
+	"go/token"
 	"go/types"
 	"math/big"
 
@@ -265,6 +266,9 @@ func (e *Engine) equalsT(t types.Type, x, y value) *Term {
 			return e.seqEq(a.arr, a.off, a.len, b.arr, b.off, b.len)
 		}
 		if u.Info()&types.IsFloat != 0 {
+			if isSymFloat(x) || isSymFloat(y) {
+				return fpBinop(token.EQL, x, y).(*Term)
+			}
 			return BoolC(x.(float64) == y.(float64))
 		}
 		if u.Kind() == types.UnsafePointer || u.Kind() == types.UntypedNil {
